@@ -988,6 +988,12 @@ def _gs_available():
     return set(v) if isinstance(v, list) else set()
 
 
+def _gs_retarget(case, fn):
+    """a case of a hand-model suite asked of the generated definition instead"""
+    return Case("gen.sepcrit", [fn] + list(case.args), case.call, tol=case.tol, tag="gen %s %s" % (fn, case.tag),
+                info=dict(case.info or {}, op="gen.sepcrit", fn=fn), nontrivial=case.nontrivial, post=case.post)
+
+
 def _int_rows(rng, nrow, n, pzero=0.3, lo=-3, hi=3):
     return np.array([[0.0 if rng.random() < pzero else float(rng.randint(lo, hi)) for _ in range(n)]
                      for _ in range(nrow)]).reshape(nrow, n)
@@ -1073,6 +1079,16 @@ def _suite_gen_sepcrit(rng, tier, shard, nshards):
                        info={"num": str(a), "den": str(b)}, nontrivial=True)
     yield from _gs_crit_cases(rng, 400 if big else 60)
     yield from _gs_decomp_cases(rng, 600 if big else 90)
+    # the existing stub streams asked of the generated definitions (same stand-ins for the kernel / the non-framewise
+    # function, np.empty poisoned)
+    for c in suite_silent(rng, tier, shard, nshards):
+        yield _gs_retarget(c, "_any_source_silent")
+    for _ in range(600 if big else 80):
+        yield _gs_retarget(_select_case(rng, images=False), "bss_eval_sources")
+    for _ in range(1200 if big else 160):
+        images = rng.random() < 0.5
+        yield _gs_retarget(_framewise_case(rng, images=images),
+                           "bss_eval_images_framewise" if images else "bss_eval_sources_framewise")
 
 
 def suite_gen_sepcrit(rng, tier, shard, nshards):
